@@ -548,6 +548,20 @@ func init() {
 			c := c05GenKey(ctx.R)
 			one(&c)
 		}
+		// derivations and key inputs that differ only just (invalid UTF-8 bytes, spellings the
+		// sanitizer shortens followed by fixed spellings next to their sanitized form, names that
+		// repeat the prefix); own generator: the other streams keep their cases
+		tr := NewRng(ctx.Seed*0x9E3779B97F4A7C15 + 0x7715)
+		n = ctx.N(150, 6000)
+		for i := 0; i < n; i++ {
+			c := derivTwinsCase(tr, i)
+			one(&c)
+		}
+		n = ctx.N(40, 1000)
+		for i := 0; i < n; i++ {
+			c := derivTwinKeys(tr)
+			one(&c)
+		}
 		// identities keep their own scope also through obtain / Close / obtain-again cycles racing
 		// report passes and each other (schedule-controlled registry scenarios, direct predicate)
 		regCrossStream(ctx, ctx.N(150, 3000), "equal_identities_share_one_scope_distinct_never_merge")
